@@ -117,6 +117,16 @@ class BodyPart:
         self._headers = headers
         self._parse_options = parse_options
 
+    def _decode_header(self, name: bytes, default: bytes, encoding: str) -> str:
+        # NOTE: header bytes that cannot be decoded are a defect of the form,
+        #   to be reported like any other one.
+        try:
+            return self._headers.get(name, default).decode(encoding)
+        except UnicodeDecodeError as err:
+            raise MultipartParseError(
+                description='invalid text in the body part headers'
+            ) from err
+
     def get_data(self) -> bytes:
         """Return the body part content bytes.
 
@@ -192,16 +202,15 @@ class BodyPart:
         # NOTE(vytas): RFC 7578, section 4.4.
         #   Each part MAY have an (optional) "Content-Type" header field, which
         #   defaults to "text/plain".
-        value = self._headers.get(b'content-type', b'text/plain')
-        return value.decode('ascii')
+        return self._decode_header(b'content-type', b'text/plain', 'ascii')
 
     @property
     def filename(self) -> Optional[str]:
         """File name if the body part is an attached file, and ``None`` otherwise."""
         if self._filename is _UNSET:
             if self._content_disposition is None:
-                value = self._headers.get(b'content-disposition', b'')
-                self._content_disposition = parse_header(value.decode())
+                value = self._decode_header(b'content-disposition', b'', 'utf-8')
+                self._content_disposition = parse_header(value)
 
             _, params = self._content_disposition
 
@@ -255,8 +264,8 @@ class BodyPart:
         """
         if self._name is _UNSET:
             if self._content_disposition is None:
-                value = self._headers.get(b'content-disposition', b'')
-                self._content_disposition = parse_header(value.decode())
+                value = self._decode_header(b'content-disposition', b'', 'utf-8')
+                self._content_disposition = parse_header(value)
 
             _, params = self._content_disposition
             self._name = params.get('name')
